@@ -62,6 +62,7 @@ var c04DestTypes = map[string]reflect.Type{
 	"plain": reflect.TypeOf(gen.Plain{}), "node": reflect.TypeOf((*gen.Node)(nil)), "bytes": reflect.TypeOf([]byte(nil)),
 	"time": reflect.TypeOf(time.Time{}), "array_int": reflect.TypeOf([4]int{}), "slice_string": reflect.TypeOf([]string(nil)),
 	"map_iface_int": reflect.TypeOf(map[interface{}]int(nil)), "map_iface_iface": reflect.TypeOf(map[interface{}]interface{}(nil)),
+	"map_string_iface": reflect.TypeOf(map[string]interface{}(nil)),
 }
 
 // C04Keyed is registered by name; held by value it cannot be a map key (it has a slice)
@@ -381,6 +382,11 @@ func c04Special() map[string][][]byte {
 		[]byte("a2{c8\"C04Keyed\"2{s4\"name\"s4\"tags\"}o0{s2\"ab\"a{}}m1{r1;1}}"), []byte("m1{m1{ua1}1}"), []byte("m1{d1.5;a{}}")}
 	m["bad-index"] = [][]byte{[]byte("r5;"), []byte("o3{}"), []byte("a1{r9;}"), []byte("r-1;"), []byte("o-1{}"), []byte("a2{uar0;}"), []byte("c1\"A\"1{ua}o1{1}"), []byte("r0;"),
 		[]byte("a1{r0;}"), []byte("m1{r0;1}"), []byte("a2{s2\"ab\"r9999999999;}")}
+	// a class that declares a field its registered struct does not have, decoded into maps; a count far beyond
+	// the input (and beyond the array it is decoded into) arriving through a reader
+	m["unknown-field"] = [][]byte{[]byte("c8\"C04Keyed\"1{s3\"xyz\"}o0{1}"), []byte("c8\"C04Keyed\"3{s4\"name\"s3\"xyz\"s4\"tags\"}o0{s2\"ab\"1a{}}"),
+		[]byte("a2{c8\"C04Keyed\"1{s3\"xyz\"}o0{1}o0{2}}")}
+	m["huge-count-reader"] = [][]byte{[]byte("a900000000000000000{12"), []byte("a900000000000000000{12}"), []byte("a4000000000{123")}
 	m["negative-length"] = [][]byte{[]byte("b-5\"\""), []byte("s-1\"\""), []byte("a-1{}"), []byte("m-1{}"), []byte("c-1\"\"0{}"), []byte("s-2\"ab\"")}
 	m["huge-count"] = [][]byte{[]byte("a99999999999{"), []byte("m99999999999{"), []byte("b99999999999\""), []byte("s99999999999\""), []byte("a2147483647{}"), []byte("a1000000000{"),
 		[]byte("m1000000000{"), []byte("c1\"A\"99999999999{"), []byte("c99999999999\""), []byte("Cufa99999999999{"), []byte("Ra99999999999{"), []byte("a100000000{1"), []byte("b100000000\"x")}
@@ -417,7 +423,13 @@ func runC04(a Args) tr.Summary {
 		} else if len(b) > 0 && (b[0] == 'R' || b[0] == 'E') {
 			entries = []string{"client"}
 		}
-		if mut == "self-reference" {
+		if mut == "unknown-field" {
+			dests = []string{"iface", "map_string_iface", "map_string_int", "plain"}
+			entries = []string{"unmarshal", "reader"}
+		} else if mut == "huge-count-reader" {
+			dests = []string{"array_int", "slice_int", "iface"}
+			entries = []string{"unmarshal", "reader"}
+		} else if mut == "self-reference" {
 			dests = []string{"iface", "node", "slice_string", "string", "map_string_int"}
 		} else if mut == "deep-nesting" {
 			dests = []string{"iface", "node"}
